@@ -12,7 +12,7 @@ import impl
 import scancorr
 
 PROP_FILES = ["theories/Props/C13.v", "theories/Inst/C13_inst.v"]
-DEPS = ["theories/Proofs/C13_proofs.vo", "theories/Gen/Registry.vo", "theories/Gen/ConfigGen.vo", "theories/Gen/Ladders.vo"]
+DEPS = ["theories/Proofs/OptionSource_proofs.vo", "theories/Proofs/C13_proofs.vo", "theories/Gen/Registry.vo", "theories/Gen/ConfigGen.vo", "theories/Gen/Ladders.vo"]
 
 PROG = ("import pickle, subprocess\npickle.loads(x)\nsubprocess.Popen(c, shell=True)\nassert x\nexec(y)\npassword = 'pw'\n"
         "f('/tmp/x')\ng('/var/data/x')\nmyspawn(z)\ntry:\n    pass\nexcept ValueError:\n    pass\n")
@@ -234,6 +234,37 @@ def default_blocks(R, rng, tier):
                                      "input": {"config": open(cf).read()[:600], "program": open(tgt).read()},
                                      "observed": {"extra": [x for x in rb if x not in ra][:6], "missing": [x for x in ra if x not in rb][:6],
                                                   "exception": b["exception"]}, "signature": None})
+
+
+def option_source(R, rng, tier):
+    """cli/main.py _log_option_source on every combination of parser default, command-line value and .bandit value from a small
+    pool (None, the empty string, the default itself, other strings) vs the model; and the statement: a command-line value
+    that is not the default is what applies."""
+    import itertools
+    from bandit.cli import main as bmain
+    pool = [None, "", ".svn,CVS", "x", "a,b", "tests"]
+    cases, meta = [], []
+
+    def oc(v):
+        return "None" if v is None else "(Some %s)" % L.pstr(v)
+    for d_, a_, i_ in itertools.product(pool, pool, pool):
+        try:
+            got = bmain._log_option_source(d_, a_, i_, "zz option")
+        except Exception as e:  # noqa: BLE001
+            R.violations.append({"what": "_log_option_source(%r, %r, %r) raised %s" % (d_, a_, i_, type(e).__name__), "input": [d_, a_, i_], "observed": str(e), "signature": None})
+            continue
+        R.case(("optsrc", d_, a_, i_), nontrivial=True, sample={"default": d_, "arg": a_, "ini": i_, "used": got})
+        R.count("option-source")
+        if d_ is not None and a_ != d_ and got != a_:
+            R.violations.append({"what": "the command line says %r (the default is %r) but %r is used" % (a_, d_, got), "input": {"default": d_, "arg": a_, "ini": i_},
+                                 "observed": got, "signature": None})
+        cases.append(("(%s, %s, %s)" % (oc(d_), oc(a_), oc(i_)), oc(got)))
+        meta.append({"default": d_, "arg": a_, "ini": i_})
+    mm, br = core.unit_corr("From Bandit Require Import Cli.OptionSource.\n", "fun x => match x with (d, a, i) => log_option_source d a i end",
+                            "option pstr * option pstr * option pstr", "option pstr", "opt_eqb", cases, label="c13o")
+    R.broken.extend(br)
+    for k, tail in mm[:10]:
+        R.broken.append({"what": "correspondence: _log_option_source differs from the model", "input": meta[k], "implementation": cases[k][1], "model_output_excerpt": tail[:300]})
 
 
 def contradictions(R, rng, tier):
@@ -524,7 +555,8 @@ def run(R, replay=None):
               "([tool.bandit]), .bandit INI and CLI options, results compared through main(); settings locality; (2) the unmodified "
               "output of bandit-config-generator vs no config on example files; (3) malformed configurations: top-level kinds, syntax "
               "errors, missing file, directory, unknown profile, contradictory tests, every known key x wrong value kinds, INI values; "
-              "(4) BanditConfig outcome classes vs init_config on parsed documents; non-trivial = a non-default configuration")
+              "(4) BanditConfig outcome classes vs init_config on parsed documents; non-trivial = a non-default configuration"
+              "; settings blocks spelling out a plugin's own defaults; ids no release knows, through every carrier")
     carriers(R, rng, R.tier)
     generator(R, rng, R.tier)
     malformed(R, rng, R.tier)
@@ -532,6 +564,7 @@ def run(R, replay=None):
     ini_equivalence(R, rng, R.tier)
     generated_plus_settings(R, rng, R.tier)
     default_blocks(R, rng, R.tier)
+    option_source(R, rng, R.tier)
     ini_booleans(R, rng, R.tier)
     model_corr(R, rng, R.tier)
     R.disagreements_checked = R.evaluations
